@@ -59,7 +59,7 @@ def resize_case(pt, sw, sh, dw, dh, alg="conv", flt="Lanczos3", m=2, alpha=True,
     if dst_c:
         dst["c"] = dst_c
     lg = list(log)
-    if ("pipeline" in chk or "threads" in chk) and "hooks" not in lg:
+    if ("pipeline" in chk or "threads" in chk or "clip" in chk) and "hooks" not in lg:
         lg.append("hooks")
     case = {"op": "resize", "api": api, "cpu": cpu, "threads": threads, "rz": rz, "src": src, "dst": dst, "opt": opt, "log": lg}
     sbox = list(box) if box is not None else [0, 0, sw * Q, sh * Q]
@@ -151,6 +151,9 @@ def hook_line(cid, h):
         o.update(h=v[0] == 1, hws=v[1], hf=v[2], hl=v[3], v=v[4] == 1, vws=v[5], vf=v[6], vl=v[7])
     elif k == "pass":
         o.update(axis=v[0], off=v[1], w=v[2], h=v[3])
+    elif k == "clip_range":
+        sat = lambda x: max(-2 ** 31, min(2 ** 31 - 1, x))      # TLC's JSON reader wraps beyond 32 bits
+        o.update(lo=sat(v[0]), hi=sat(v[1]))
     return o
 
 
@@ -195,7 +198,7 @@ def write_trace(path, cases, recs, keep=None):
                         f.write(json.dumps(thread_line(c["id"], h), separators=(",", ":")) + "\n")
                         n += 1
                     continue
-                if "pipeline" not in sp["chk"]:
+                if "pipeline" not in sp["chk"] and not (h["k"] == "clip_range" and "clip" in sp["chk"]):
                     continue
                 f.write(json.dumps(hook_line(c["id"], h), separators=(",", ":")) + "\n")
                 n += 1
